@@ -14,8 +14,11 @@ claim(
     "consulted only without extra constraints; caches written by flag are read by the same flag; min/max layers are "
     "duals; positive caches are downgraded on add; every delegation forwards extra_constraints/signed/exact/n; "
     "pending constraints are flushed into the native solver at each query; only sanctioned code mutates a native "
-    "solver. It does not decide the answers themselves.",
-    "Not decided: correctness of Z3's answers, of the model evaluator and of constraint splitting. " + GENERIC_NOTE,
+    "solver; an 'exhausted' mark is written only where the cached models cover the expression's variables, tested "
+    "before the delegated search. It does not decide the answers themselves.",
+    "Not decided: correctness of Z3's answers, of the model evaluator and of constraint splitting. Known findings: "
+    "ConcreteHandlerMixin answers queries about concrete expressions without consulting the constraint set (by "
+    "design); reuse_z3_solver mode shares a native solver. " + GENERIC_NOTE,
 )
 claim(
     "C14",
@@ -45,7 +48,8 @@ claim(
 claim(
     "C18",
     "field-set and tuple-shape agreement between __init__/__getstate__/__setstate__ over C3 MROs (AST)",
-    "Decides that every field a frontend class initialises is restored or rebuilt on unpickling, that "
+    "Decides that every field a frontend class initialises is restored or rebuilt on unpickling - rebuilt blank only "
+    "where blank means 'nothing known' -, that "
     "__getstate__/__setstate__ agree slot by slot and chain to the next class in every solver's MRO.",
     "Not decided: equality of answers after a round trip; cross-process hash stability. " + GENERIC_NOTE,
 )
@@ -78,7 +82,8 @@ claim(
     "Decides the copy-on-write discipline (a shared child receives constraints only after _claim, claimed children "
     "are stored back, neither side owns shared children after a branch, merge disowns, split hands out branches), "
     "that every query establishes satisfiability of all groups before delegating to the merged child, that "
-    "UNSAT/UNKNOWN child answers propagate, plus the cache/forwarding/field rules shared with C11.",
+    "UNSAT/UNKNOWN child answers propagate, that the concrete-False flag (kept in no child) is read by split and merge, "
+    "that an unpickled composite re-checks every child, plus the cache/forwarding/field rules shared with C11.",
     "Not decided: correctness of the partition computed by _split_constraints on runtime data, model "
     "re-absorption bookkeeping, the answers themselves. " + GENERIC_NOTE,
 )
@@ -89,7 +94,8 @@ claim(
     "under the caller's flag only), that no code outside the interval classes orders values against raw interval "
     "bounds, that solver answers "
     "become replacements only under the opt-in flag (default off), that auto-replacements have the right polarity "
-    "and direction and VSA bounds are intersected, that constraints always reach the inner frontend, and that the "
+    "and direction and VSA bounds are intersected, that constraints always reach the inner frontend - as written "
+    "whenever a replacement stripped them of a variable - and that the "
     "hybrid frontend uses the approximate side only when exact is False or in the opt-in approximate-first mode.",
     "Not decided: that VSA answers over-approximate (C21-C25) and that constraint_to_si's bounds are implied by the "
     "constraint. " + GENERIC_NOTE,
@@ -100,7 +106,8 @@ claim(
     "Decides that merge pairs condition i with solver i of [self, *others] and builds Or over And(condition, "
     "*constraints) into a blank copy (ancestor.branch() + Or(conditions) with an ancestor), that combine adds every "
     "constraint set to a blank copy and carries models only across disjoint variable sets, that split builds one "
-    "blank copy per independent group, returns all of them and restricts inherited models.",
+    "blank copy per independent group, returns all of them and restricts inherited models, and that the composite's "
+    "split and merge honour a concrete False kept in its flag.",
     "Not decided: the groups computed by _split_constraints (graph computation on runtime data) and composite merge "
     "bookkeeping beyond pairing order. " + GENERIC_NOTE,
 )
